@@ -150,7 +150,7 @@ def goenv(ctx):
 
 
 COVER = os.environ.get("VERIF_COVER", "")      # coverage survey (bin/coverage): a directory for GOCOVERDIR data
-COVERFLAGS = ["-cover", "-coverpkg=github.com/google/inverting-proxy/..."] if COVER else []
+COVERFLAGS = ["-cover", "-covermode=atomic", "-coverpkg=github.com/google/inverting-proxy/..."] if COVER else []
 
 
 def go_build_repo(ctx, pkg, out, race=False, tags="verif"):
@@ -180,7 +180,7 @@ def harness_modfile(ctx):
 def go_build_harness(ctx, pkg="./cmd/vdrive", out="vdrive", race=False):
     cmd = ["go", "build", "-tags", "verif", "-modfile", harness_modfile(ctx)]
     if COVER:   # (the pattern has to include the main module of the build, or nothing is instrumented)
-        cmd += ["-cover", "-coverpkg=verifharness/...,github.com/google/inverting-proxy/..."]
+        cmd += ["-cover", "-covermode=atomic", "-coverpkg=verifharness/...,github.com/google/inverting-proxy/..."]
     if race:
         cmd.append("-race")
     cmd += ["-o", os.path.join(ctx.bindir, out), pkg]
